@@ -1182,6 +1182,10 @@ _utext = st.one_of(
                          'é', '€', '\U0001F600', 'a', 'Z', '9', '~', '+', "'", '\x7f', '\t']),
         st.text(alphabet=st.characters(blacklist_categories=('Cs',)), max_size=3)), max_size=8).map(''.join),
     _uri_small,
+    # beyond the moderate range: hundreds / thousands of well-formed escapes followed (or not) by something that is not one
+    st.builds(lambda n, unit, tail: '/p/' + unit * n + tail, st.sampled_from([100, 255, 256, 257, 300, 1024, 3000]),
+              st.sampled_from(['%41', '%C3%A9', '%e2%82%ac']), st.sampled_from(['', '', '%', '/save-100%', '%zz', '\u00e9', ' x', '%4'])),
+    st.builds(lambda n, tail: 'abcdefghij' * n + tail, st.sampled_from([30, 7000]), st.sampled_from(['', '\u00e9', '%', '%41'])),
 )
 _fname = st.one_of(
     st.text(alphabet=st.characters(blacklist_categories=('Cs',)), min_size=1, max_size=10),
